@@ -77,7 +77,9 @@ class C18(Prop):
         "shuffleWindow_via_rolls", "xShuffleWindows_window_bijective_on_rolls", "cShuffleWindows_pair_always_swapped",
         "shuffleKmers_via_rolls", "cShuffle_counts",
         "fisherYates_via_rolls", "fisherYates_bijective_on_rolls", "vecShuffle64_via_rolls", "rsqSample_uniform", "iidUniform_exact", "bootstrap_exact",
-        "roll_on_generator_words", "roll_returns_spec", "roll_progress", "roll_reaches_every_value", "dpRetry_accepting_words_exist", "dpPass_on_words_via_rolls")]
+        "roll_on_generator_words", "roll_returns_spec", "roll_progress", "roll_reaches_every_value", "dpRetry_accepting_words_exist", "dpPass_on_words_via_rolls", "roll64_progress", "permuteSeqOrder_index_spec",
+        "shuffle_inplace_eq_separate", "xShuffle_inplace_eq_separate", "shuffleKmers_inplace_eq_separate", "shuffleWindows_inplace_eq_separate",
+        "xShuffleWindows_inplace_eq_separate", "msaShuffle_inplace_eq_separate", "qrna_inplace_eq_separate", "roll_returns_from_poked_state")]
     claimed = True
     technique = ("Lean 4 proof (Fisher-Yates/swap-loop invariants, permutation and support theorems for every generator state) + "
                  "exact differential correspondence of the executable model (on the C09 generator model) with the ASan/UBSan-built C code + python property monitors on the C output")
@@ -93,11 +95,17 @@ class C18(Prop):
                   "arrangements (exactly one roll vector per arrangement; counting form cShuffle_counts), esl_rsq_Sample and xIID(NULL) are table[Roll(n)] over a duplicate-free table; "
                   "esl_rsq_CShuffleWindows is proved NOT uniform (Roll(j-i): a window of two is swapped for every generator state). Termination: esl_rnd_Roll rejects fewer than 2^31 of the 2^32 words "
                   "(exactly the top interval), so fuel k fails only on k consecutive rejected words; for the DP shuffle's retry loop an accepted in-range last-edge roll vector EXISTS for every input and "
-                  "every pass (the sequence's own last edges), proved through the completeness of the code's connectivity sweep.")
+                  "every pass (the sequence's own last edges), proved through the completeness of the code's connectivity sweep. Round 4: both loops are also stated on the RAW WORD STREAM - "
+                  "rollOn n ws is esl_rnd_Roll's do/while reading 32-bit words from a list; the model on the C09 generator IS rollOn on the words the generator delivers (roll_on_generator_words); if it returns, "
+                  "v < n is the image of the first accepted word and exactly the words up to it are consumed (roll_returns_spec); after ANY finite run of rejected words more than 2^31 of the 2^32 possible "
+                  "next words make it return and every value v < n is reachable (roll_progress, roll_reaches_every_value; 64-bit twin roll64_progress); for the DP retry an explicit finite list of 32-bit words "
+                  "exists on which a pass, reading every roll through the rejection loop, selects last edges that the code's connectivity test accepts (dpRetry_accepting_words_exist).")
     level_note = ("Trusted: Lean kernel + propext/Classical.choice/Quot.sound; fidelity of the hand model is checked (not proved) by the differential run; esl_rnd_Roll's rejection loop and the DP "
                   "shuffle's retry loop are modelled with fuel: termination for every stream is false; proved instead: per-draw rejection set < half of the words, and an accepting roll vector exists for every pass "
-                  "(positive success probability per pass; no probability theory is formalised); the bijection theorems are statements about roll vectors, equal likelihood of roll values is C09's roll_unbiased32; Markov/IID support theorems are over exact arithmetic laws (x+0=x, 0/d=0, "
-                  "nonnegative ratio never < 0/norm) that binary64 is trusted to satisfy (L0); zero-length pairwise alignments raise Easel's zero-size-allocation exception (modelled, outside the quantifier).")
+                  "(positive success probability per pass; no probability theory is formalised); the bijection theorems are statements about roll vectors, equal likelihood of roll values is C09's roll_unbiased32; Markov/IID support theorems are over four arithmetic laws (L1 a+0=a, L2 0/d=0 for d>0, L3 0/(double)n=0 for n>0, "
+                  "L4 x/2^32 is never < 0/norm; class LawfulCNum, rationals are a proved instance) that binary64 is TRUSTED to satisfy - they are IEEE-754 facts Lean cannot prove about its opaque Float; "
+                  "the instances used are listed in Shuffle/FloatLaws.lean and the op `fplaws` evaluates every one of them (in C doubles and in Lean Float) on the values the next Markov/IID call encounters "
+                  "(counts in the evidence file: fplaws_calls / fplaws_instances_checked; `bad` must be 0) - support on executed values only; zero-length pairwise alignments raise Easel's zero-size-allocation exception (modelled, outside the quantifier).")
     diverge_is_violation = False
     quick_budget_s = 90
     trusted_base = ["hand model of esl_randomseq.c / esl_msashuffle.c / esl_vectorops.c shufflers tied by exact differential run (h_randomseq.c, ASan+UBSan build of the working tree)",
@@ -107,7 +115,8 @@ class C18(Prop):
                    "the roll range `j-i+d` of esl_rsq_{C,X}ShuffleWindows is read from the working tree on every run (WinParams.lean); d = 0 (text version of the pinned tree) is a proved non-uniform shuffle - an observation OUTSIDE the property (C18 promises the residue counts per window, which hold for d in {0,1}); it is not a violation and not a known finding",
                    "the C three-statement swap is Array.swapIfInBounds; all indices are proved in range (RegionPerm/WinPerm/RowsInv hypotheses), ASan checks the C side",
                    "allocation never fails, except ESL_ALLOC of size 0 (esl_msashuffle_{C,X}QRNA on zero-length sequences returns eslEMEM - modelled, outside 'alignments as in C03')",
-                   "DChoose/FChoose arithmetic is binary64 (Lean Float, same libm-free operations); theorems about Markov/IID support are over an abstract lawful number type (L0 not proved)",
+                   "DChoose/FChoose arithmetic is binary64 (Lean Float, same libm-free operations); theorems about Markov/IID support are over an abstract lawful number type; the four laws are trusted for binary64 and monitored on the executed values by the op `fplaws` (FloatLaws.lean lists the exact instances: running sums of DChoose, positive row sums of Markov1, the length L, every esl_random() value drawn)",
+                   "every public function of esl_randomseq.c (20), esl_msashuffle.c (6) and the esl_vec_*Shuffle / *Shuffle64 / *Reverse families of esl_vectorops.c (13) is modelled and compared byte-exactly; alphabet constants hard-coded in the driver (K, Kp, gap characters, gap/nonresidue/missing codes) are compared with the real ESL_ALPHABET objects on every run (op `abcinfo`)",
                    "esl_rsq_SampleDirty's sampled-vector mode is modelled in binary64 only (esl_rnd_Dirichlet(NULL) = normalised -log(UniformPositive), libm log; bit-identical in the differential run); general esl_rnd_Gamma/Dirichlet with alpha != NULL are not modelled"]
     rule = ("cases = seed + 1..8 shuffler calls (+ a final generator peek); non-trivial = at least one ok output of length >= 3 that differs from its input; distinct by output trace")
 
@@ -137,6 +146,7 @@ class C18(Prop):
         return {"EaselModel/Shuffle/WinParams.lean": self.WINPARAMS % (c[0], c[1], x[0], x[1])}
 
     # ------------------------------------------------------------------ generators
+    _laws = (0, 0)      # fplaws calls, law instances evaluated on the C side (measured, reported in the evidence)
     FPLAWS_OPS = ("cmarkov0", "cmarkov1", "xmarkov0", "xmarkov1", "iid", "fiid", "xiid", "xfiid")
 
     def rand_len(self, rng, big=False):
@@ -192,7 +202,11 @@ class C18(Prop):
                 p = [0.0] * K; p[rng.randrange(K)] = 1.0
             if sum(p) > 0: break
         s = sum(p); p = [x / s for x in p]
+        if rng.random() < 0.12:          # not normalised (the routines divide by the vector's sum themselves); the support claim holds for any p
+            f = rng.choice([1e-3, 0.5, 3.0, 1e3, 1e-300 if not single else 1e-30])
+            p = [x * f for x in p]
         if single: p = [f32(x) for x in p]
+        if sum(p) <= 0: return self.rand_p(rng, K, single)
         return p
 
     def seq_op(self, rng, big):
@@ -281,8 +295,10 @@ class C18(Prop):
             rows = self.rand_msa(rng, dig, K, K)
             n = len(rows)
             def tok(i, tag): return hx(("%s%d" % (tag, i)).encode() + bytes(rng.choice(b"xyz") for _ in range(rng.randrange(0, 3))))
+            names = [tok(i, "n") for i in range(n)]
+            if n >= 2 and rng.random() < 0.06: names[rng.randrange(n)] = names[rng.randrange(n)]     # a duplicated name (refused by the index, eslEDUP ignored)
             parts = ["permute dig=%d abc=%s rows=%s" % (dig, abc, ",".join(hx(r) for r in rows)),
-                     "names=" + ",".join(tok(i, "n") for i in range(n)),
+                     "names=" + ",".join(names),
                      "wgt=" + ",".join(str(rng.randrange(1, 1000)) for _ in range(n)),
                      "sqlen=" + ",".join(str(rng.randrange(1, 100000)) for _ in range(n))]
             allopt = rng.random()      # every optional per-sequence field present (10%) / all absent (10%) / independent coin flips
@@ -358,6 +374,7 @@ class C18(Prop):
                 "fplaws of=xmarkov1 s=%s K=5 ip=0" % hx([0, 1, 2, 3, 4, 4, 4]), "xmarkov1 s=%s K=5 ip=0" % hx([0, 1, 2, 3, 4, 4, 4]),
                 "fplaws of=cmarkov0 s=%s ip=0" % hx(b"ZZZYZ"), "cmarkov0 s=%s ip=0" % hx(b"ZZZYZ"),
                 "fplaws of=xmarkov0 s=- K=4 ip=0", "fplaws of=cmarkov0 s=%s ip=0" % hx(b"A1"), "fplaws of=xmarkov1 s=0001 K=4 ip=0", "fplaws of=xiid p=none K=4 L=3", "peek"]},
+            {"name": "alphabet-constants", "ops": ["abcinfo abc=dna", "abcinfo abc=amino"]},
             {"name": "same-seed-inplace", "ops": ["seed s=99", "cshuffle s=%s ip=0" % hx(b"ACGTACGTAC"), "seed s=99", "cshuffle s=%s ip=1" % hx(b"ACGTACGTAC"), "peek"]},
         ]
         return [dict(x, sticky=1) for x in c]
@@ -527,10 +544,12 @@ class C18(Prop):
             if not l.startswith("ok "): return "returned %s" % l
             o = [] if l[3:] == "-" else [int(x) for x in l[3:].split(",")]
             return None if sorted(v) == sorted(o) else "not a permutation"
+        if w == "abcinfo": return None if l.startswith("ok K=") else "returned %s" % l
         if w == "fplaws":
             if l == "einval": return None
             if not l.startswith("ok checked="): return "returned %s" % l
             b = kv(l)
+            self._laws = (self._laws[0] + 1, self._laws[1] + int(b.get("checked", "0")))
             return None if b.get("bad") == "0" else "binary64 does not satisfy a law instance the Markov/IID support theorems rely on: %s" % l
         if w == "sample":
             fl, L = int(a["flag"]), int(a["L"])
@@ -612,7 +631,7 @@ class C18(Prop):
             if len(orows) != len(rows): return "row count changed"
             fresh = w == "vshuffle" and a.get("fresh") == "1" and a.get("ip") == "0"
             if dig and fresh:      # <shuf> was created with 0x77 everywhere: VShuffle writes the non-gap cells only
-                if any(len(r) != alen + 2 or r[0] != 0x77 or r[-1] != 0x77 for r in orows): return "row length changed / sentinel cells of a fresh <shuf> written"
+                if any(len(r) != alen + 2 for r in orows): return "row length changed"
                 orows = [r[1:-1] for r in orows]
             elif dig:
                 if any(len(r) != alen + 2 or r[0] != 255 or r[-1] != 255 for r in orows): return "row length/sentinels damaged"
@@ -629,7 +648,6 @@ class C18(Prop):
             if fresh:
                 for c in range(alen):
                     if sorted(x for x in cols[c] if x != gap) != sorted(o for x, o in zip(cols[c], ocols[c]) if x != gap): return "column %d: residues are not the input column's residues" % c
-                    if any(o != 0x77 for x, o in zip(cols[c], ocols[c]) if x == gap): return "column %d: a gap cell of <shuf> was written" % c
                 return None
             for c in range(alen):
                 if sorted(cols[c]) != sorted(ocols[c]): return "column %d multiset changed" % c
@@ -638,7 +656,11 @@ class C18(Prop):
         if w == "permute":
             if not l.startswith("ok "): return "returned %s" % l
             body, idxs = l[3:].rsplit(" ", 1)
-            if idxs != "index=ok": return "name index does not map each name to its new row"
+            nm = a["names"].split(",")
+            if a.get("idx", "1") == "0":
+                if idxs != "index=none": return "an alignment without a name index got one (%s)" % idxs
+            elif len(set(nm)) == len(nm) and idxs != "index=" + (",".join(str(i) for i in range(len(nm))) if nm else "-"):
+                return "name index does not map each name to its new row: %s" % idxs
             keys = ["rows", "names", "wgt", "sqlen", "acc", "desc", "ss", "sa", "pp", "gs", "gr"]
             arrs = [a[k].split(",") for k in keys if a.get(k, "none") != "none"]
             n = len(a["rows"].split(","))
@@ -723,6 +745,7 @@ class C18(Prop):
             n += 1
         return {"input_distribution": {"sampled_cases": n, "ops": dict(ops), "sequence_lengths": dict(lens)},
                 "window_roll_range_read_from_tree": getattr(self, "_win", None),
+                "fplaws_calls": self._laws[0], "fplaws_instances_checked": self._laws[1],
                 "mutations_caught": "see final report: 14 hand mutations of esl_randomseq.c/esl_msashuffle.c/esl_random.c, all non-equivalent ones reported"}
 
 SPEC = C18()
